@@ -21,7 +21,7 @@
    Full-strength statement of the property, not proved as such:
      for every Go program made of the library's operations on distinct instances in several
      goroutines, every execution is race free and returns the sequential results. *)
-From Verif Require Import Base Params Indep Registry IndepProofs RegistryProofs.
+From Verif Require Import Base Params Indep IndepFacts Registry IndepProofs RegistryProofs.
 Open Scope Z_scope.
 
 Theorem C19_indep_commutes_partial :
@@ -208,12 +208,22 @@ Example C19_derived_set_clean_current :
   reads (fp_of current_facts set_a) <> [].
 Proof. exact derived_set_clean_current. Qed.
 
+(* the package-level variables of the Go sources are exactly the expected ones, all benign: the
+   registries (locked) are the only mutable class-level state the table has to account for *)
+Theorem C19_package_state_inventory :
+  Params.package_vars = expected_package_vars /\
+  forallb (fun p => benign_kind (snd p)) Params.package_vars = true /\
+  forallb registry_is_locked Params.package_vars = true /\
+  length (filter is_registry Params.package_vars) = length Params.registry_locked.
+Proof. exact package_state_inventory. Qed.
+
 Print Assumptions C19_indep_commutes_partial.
 Print Assumptions C19_schedule_independent.
 Print Assumptions C19_ops_commute.
 Print Assumptions C19_distinct_instances_disjoint.
 Print Assumptions C19_distinct_instances_disjoint_current.
 Print Assumptions C19_table_programs_independent.
+Print Assumptions C19_package_state_inventory.
 Print Assumptions C19_registry_unique.
 Print Assumptions C19_registry_progress.
 Print Assumptions C19_registry_unlocked_refuted.
